@@ -1,7 +1,7 @@
 """Registry: property id -> obligation groups and evidence metadata."""
 import importlib
 
-MODULES = ["iterators", "opseq", "router", "mrouter", "fplemmas", "pool", "trimesh", "pflood", "cache", "status", "raster", "sweeps", "accessors", "wrappers", "snapshot", "spl", "memsafety"]
+MODULES = ["iterators", "opseq", "router", "mrouter", "fplemmas", "pool", "trimesh", "pflood", "cache", "status", "raster", "sweeps", "accessors", "wrappers", "snapshot", "spl", "basin", "orders", "adi", "memsafety"]
 
 COMMON_TRUSTED = [
     "cbmc 6.11.0 + goto-instrument DFCC contract instrumentation + the SAT/SMT back end named per group",
@@ -34,6 +34,8 @@ def _load():
                     # the weakest level wins
                     if v != "proof":
                         cur["level"] = v
+                elif isinstance(v, bool):
+                    cur[k] = v
                 elif k == "explanation":
                     cur["explanation"] = (cur["explanation"] + " " + v).strip()
                 else:
